@@ -52,26 +52,26 @@ type Will struct {
 
 // Sess is the model of one client connection / session.
 type Sess struct {
-	K          *Client
-	Node       *Node
-	MP         string
-	ClientID   string
-	KeepAlive  uint16
-	Will       *Will
-	Connected  bool            // CONNECT was sent
-	Alive      bool            // model: session established and not ended
-	EndCause   string          // why the model thinks it ended ("" while alive)
-	Subs       map[string]byte // active filters (as the client wrote them)
-	Expect     map[string]int  // expected PUBLISH multiset: key(topic,payload,retain) -> count
-	SessionID  string
-	Deadline   time.Duration // model of the keep-alive allowance (virtual time)
+	K         *Client
+	Node      *Node
+	MP        string
+	ClientID  string
+	KeepAlive uint16
+	Will      *Will
+	Connected bool            // CONNECT was sent
+	Alive     bool            // model: session established and not ended
+	EndCause  string          // why the model thinks it ended ("" while alive)
+	Subs      map[string]byte // active filters (as the client wrote them)
+	Expect    map[string]int  // expected PUBLISH multiset: key(topic,payload,retain) -> count
+	SessionID string
+	Deadline  time.Duration // model of the keep-alive allowance (virtual time)
 	// DeadlineMax >= Deadline: the latest instant the allowance can reach when it is not known
 	// whether the broker wrote to the session (hand-scheduled gossip: whether a publish is
 	// routed to a session depends on what the publisher's node has heard). The session must be
 	// alive before Deadline and gone after DeadlineMax; idle steps never end in between.
 	DeadlineMax time.Duration
-	nextPID    uint16
-	connectSeq int
+	nextPID     uint16
+	connectSeq  int
 	// Displaced: a newer session took over the client id; this one may still be served
 	// until its next keep-alive exchange, so deliveries to it are not judged.
 	Displaced bool
